@@ -188,6 +188,23 @@ fn get_discriminator_id_as_i32(v: &DynamicData) -> XTypesResult<i32> {
 }
 
 struct EncodingVersion1;
+impl EncodingVersion1 {
+    /// Move behind the end of a parameter list. This is not a search for the member whose id happens to equal
+    /// the sentinel value: only the (sentinel, length 0) entry ends the list, everything else is skipped
+    fn seek_to_list_end<'a, E: EndiannessRead>(
+        deserializer: &mut XTypesDeserializer<'a, E, Self>,
+    ) -> XTypesResult<()> {
+        loop {
+            Self::align(deserializer, 4)?;
+            let current_pid: u16 = deserializer.deserialize_primitive_type()?;
+            let length: u16 = deserializer.deserialize_primitive_type()?;
+            if current_pid & 0b00111111_11111111 == PID_SENTINEL && length == 0 {
+                return Ok(());
+            }
+            deserializer.reader.seek(length as usize)?;
+        }
+    }
+}
 impl EncodingVersion for EncodingVersion1 {
     const APPENDABLE_HAS_DHEADER: bool = false;
 
@@ -297,17 +314,7 @@ impl EncodingVersion for EncodingVersion1 {
         dynamic_data: &mut DynamicData,
     ) -> XTypesResult<()> {
         deserializer.deserialize_members(dynamic_data)?;
-        // Move behind the end of the list. This is not a search for the member whose id happens to equal
-        // the sentinel value: only the (sentinel, length 0) entry ends the list, everything else is skipped
-        loop {
-            let current_pid: u16 = deserializer.deserialize_primitive_type()?;
-            let length: u16 = deserializer.deserialize_primitive_type()?;
-            if current_pid & 0b00111111_11111111 == PID_SENTINEL && length == 0 {
-                return Ok(());
-            }
-            deserializer.reader.seek(length as usize)?;
-            Self::align(deserializer, 4)?;
-        }
+        Self::seek_to_list_end(deserializer)
     }
 
     /// Member of mutable aggregated type (structure, union), version 1 encoding
@@ -366,23 +373,24 @@ impl EncodingVersion for EncodingVersion1 {
         // The discriminator value represents the id of a member
         let disc_id = get_discriminator_id_as_i32(dynamic_data)?;
 
-        let mut default_member = None;
-        for member_index in 0..dynamic_type.get_member_count() {
+        // The member selected by the discriminator, else the default member, else none: the union then holds
+        // only its discriminator
+        let mut selected_member = None;
+        for member_index in 1..dynamic_type.get_member_count() {
             let member = dynamic_type.get_member_by_index(member_index)?;
-            // Deserialize the member based on its discriminator
             if member.descriptor.label.contains(&disc_id) {
-                return Self::deserialize_mmember(deserializer, member, dynamic_data);
+                selected_member = Some(member);
+                break;
             }
             if member.descriptor.is_default_label {
-                default_member = Some(member);
+                selected_member = Some(member);
             }
         }
-        if let Some(member) = default_member {
-            return Self::deserialize_mmember(deserializer, member, dynamic_data);
+        if let Some(member) = selected_member {
+            Self::deserialize_mmember(deserializer, member, dynamic_data)?;
         }
-
-        // The discriminator selects no member and there is no default: the union holds only its discriminator
-        Ok(())
+        // What follows the union starts behind the end of its parameter list
+        Self::seek_to_list_end(deserializer)
     }
 
     /// Extensibility APPENDABLE (Collection or Aggregated types), version 1
@@ -568,7 +576,11 @@ impl EncodingVersion for EncodingVersion2 {
         deserializer: &mut XTypesDeserializer<'a, E, Self>,
         dynamic_data: &mut DynamicData,
     ) -> XTypesResult<()> {
-        let _dheader = deserializer.deserialize_primitive_type::<u32>();
+        let dheader = deserializer.deserialize_primitive_type::<u32>()?;
+        if dheader as usize > deserializer.reader.remaining() {
+            return Err(XTypesError::NotEnoughData);
+        }
+        let end = deserializer.reader.pos + dheader as usize;
 
         let dynamic_type = dynamic_data.r#type();
         // Deserialize the discriminator
@@ -578,22 +590,24 @@ impl EncodingVersion for EncodingVersion2 {
         // The discriminator value represents the id of a member
         let disc_id = get_discriminator_id_as_i32(dynamic_data)?;
 
-        let mut default_member = None;
-        for member_index in 0..dynamic_type.get_member_count() {
+        // The member selected by the discriminator, else the default member, else none: the union then holds
+        // only its discriminator
+        let mut selected_member = None;
+        for member_index in 1..dynamic_type.get_member_count() {
             let member = dynamic_type.get_member_by_index(member_index)?;
-            // Deserialize the member based on its discriminator
             if member.descriptor.label.contains(&disc_id) {
-                return Self::deserialize_mmember(deserializer, member, dynamic_data);
+                selected_member = Some(member);
+                break;
             }
             if member.descriptor.is_default_label {
-                default_member = Some(member);
+                selected_member = Some(member);
             }
         }
-        if let Some(member) = default_member {
-            return Self::deserialize_mmember(deserializer, member, dynamic_data);
+        if let Some(member) = selected_member {
+            Self::deserialize_mmember(deserializer, member, dynamic_data)?;
         }
-
-        // The discriminator selects no member and there is no default: the union holds only its discriminator
+        // What follows the union starts where the DHEADER says the union ends
+        deserializer.reader.pos = end;
         Ok(())
     }
 
